@@ -39,7 +39,7 @@ COMMON = [
 GROUP = {
     'name': 'Printer',
     'imports': ['Cellml.Tie.PrinterView'],
-    'header': 'open C11',
+    'header': 'open Cellml.Tie.PPrinter\nopen C11',
     'patterns': COMMON,
     'functions': [
         {'file': 'cellmlmanip/printer.py', 'func': 'Printer._bracket', 'lean_name': 'bracket',
